@@ -476,6 +476,18 @@ func ApplyConnectCAOperationFromRequest(state *state.Store, req *structs.CAReque
 
 		return true
 	case structs.CAOpSetRootsAndConfig:
+		// Both parts apply or neither does. Commands are applied one at a
+		// time, so check the config's expected index before replacing the
+		// roots rather than finding out afterwards.
+		_, existing, err := state.CAConfig(nil)
+		if err != nil {
+			return err
+		}
+		if (existing != nil && existing.ModifyIndex != req.Config.ModifyIndex) ||
+			(existing == nil && req.Config.ModifyIndex != 0) {
+			return false
+		}
+
 		act, err := state.CARootSetCAS(index, req.Index, req.Roots)
 		if err != nil {
 			return err
